@@ -295,6 +295,16 @@ fn gen_c04(r: &mut Rng) -> (J, Prog) {
             }
         }
     }
+    // single-clause probe rules make a named rule's status directly visible as a verdict
+    // (inside a bigger rule a wrong reference is often masked by other failing clauses)
+    for n in &names {
+        match r.below(6) {
+            0 | 1 => p.rules.push(Rule { name: format!("probe_{n}"), when: vec![], body: Body { lets: vec![], lines: vec![Line { alts: vec![Clause::Ref { not: false, name: n.clone(), msg: None }] }] } }),
+            2 => p.rules.push(Rule { name: format!("nprobe_{n}"), when: vec![], body: Body { lets: vec![], lines: vec![Line { alts: vec![Clause::Ref { not: true, name: n.clone(), msg: None }] }] } }),
+            3 => p.rules.push(Rule { name: format!("wprobe_{n}"), when: vec![Line { alts: vec![Clause::Ref { not: r.chance(1, 2), name: n.clone(), msg: None }] }], body: Body { lets: vec![], lines: vec![Line { alts: vec![Clause::Cmp(Cmp { not: false, q: Query { some: false, parts: vec![Part::Key("zz_not_there".into())] }, op: Op::Exists, opnot: true, rhs: None, msg: None })] }] } }),
+            _ => {}
+        }
+    }
     // the documented idiom "one name, several definitions with mutually exclusive guards":
     // exactly one definition can be non-SKIP, so the named status is order independent
     if r.chance(1, 3) && !p.rules.is_empty() {
